@@ -1006,6 +1006,22 @@ class Fn:
         args = [a for a in I['args']]
         if c.kind == 'glob' and c.name.startswith('llvm.'):
             return s.emit_intrinsic(I, out)
+        if c.kind == 'glob' and c.name in ('_Znwm', '_Znam') and d is not None and args and args[0][0].kind == 'int':
+            # typed allocation: if the result is cast to a pointer to a struct of exactly this size, allocate an object
+            # of that type (CBMC then keeps the fields as separate SSA symbols instead of a byte array)
+            n = args[0][0].v; ty = None
+            for b in s.blocks:
+                for J in b['parsed']:
+                    if J['op'] == 'bitcast' and J['x'].kind == 'reg' and J['x'].name == d:
+                        t = E.resolve(J['ty'])
+                        if isinstance(t, PtrTy) and isinstance(J['ty'].to if isinstance(J['ty'], PtrTy) else None, NamedTy):
+                            st = E.resolve(t.to)
+                            if isinstance(st, StructTy) and st.fields is not None and E.size_align(t.to)[0] == n: ty = J['ty'].to; break
+                if ty is not None: break
+            if ty is not None:
+                s.declare(d, rt)
+                out.append('%s = (u8*)IR_NEW_TYPED(%s);' % (s.reg(d), E.cty(ty)))
+                return
         if c.kind == 'glob' and c.name == '__cxa_atexit':
             if d is not None: s.declare(d, rt); out.append('%s = 0;' % s.reg(d))
             return
@@ -1072,6 +1088,46 @@ class Fn:
         E._vtables = vts
         return vts
 
+
+    def static_class(s, fty):
+        """mangled class name of the static receiver type of a virtual call (None if unknown / unreliable)"""
+        E = s.E
+        if not fty.params: return None
+        t = fty.params[0]
+        if not isinstance(t, PtrTy) or not isinstance(t.to, NamedTy): return None
+        nme = t.to.name
+        m = re.match(r'^(class|struct)\.([A-Za-z_][A-Za-z0-9_]*)(\.\d+)?$', nme)
+        if not m: return None
+        st = E.resolve(t.to)
+        # vptr-only classes are structurally identical: llvm-link may have merged them under another class's name
+        if not isinstance(st, StructTy) or st.fields is None or len(st.fields) <= 1: return None
+        cls = m.group(2); mang = '%d%s' % (len(cls), cls)
+        if ('_ZTI' + mang) not in E.M.globals: return None
+        return mang
+
+    def derived_classes(s, mang):
+        """set of mangled class names equal to or derived from mang (from the typeinfo objects of the module)"""
+        E = s.E
+        if not hasattr(E, '_bases'):
+            bases = {}
+            for g, gi in E.M.globals.items():
+                if not g.startswith('_ZTI') or gi['init'] is None or gi['init'].kind != 'cstruct': continue
+                bs = []
+                for e in gi['init'].els[2:]:
+                    x = e
+                    while x.kind == 'ccast': x = x.x
+                    if x.kind == 'glob' and x.name.startswith('_ZTI'): bs.append(x.name[4:])
+                bases[g[4:]] = bs
+            E._bases = bases
+        res = set()
+        def isder(c, seen=()):
+            if c == mang: return True
+            return any(isder(b, seen + (c,)) for b in E._bases.get(c, []) if b not in seen)
+        for c in E._bases:
+            if isder(c): res.add(c)
+        res.add(mang)
+        return res
+
     def devirtualise(s, I, fty, args, out):
         """virtual call pattern: f = load (gep (load vptr), k); call f(...)  ->  cascade over the vtables of the module
         whose slot k holds a function of the same signature (CBMC's own function-pointer removal considers every
@@ -1095,6 +1151,8 @@ class Fn:
         if not (isinstance(t, PtrTy) and isinstance(E.resolve(t.to), PtrTy) and isinstance(E.resolve(E.resolve(t.to).to), FnTy)): return False
         cands = []
         nparams = len([a for a in args])
+        static_cls = s.static_class(fty)
+        allowed = s.derived_classes(static_cls) if static_cls else None
         for (g, ai, els) in s.vtables():
             idx = 2 + k
             if idx >= len(els): continue
@@ -1103,6 +1161,7 @@ class Fn:
             if e.kind != 'glob' or e.name not in E.M.funcs: continue
             f = E.M.funcs[e.name]
             if e.name == '__cxa_pure_virtual': continue
+            if allowed is not None and g[4:] not in allowed: continue
             if len(f['params']) != nparams or f['ret'].key() != fty.ret.key(): continue
             ok = True
             for (pt, pn, pa), (a, aa) in list(zip(f['params'], args))[1:]:
@@ -1229,6 +1288,11 @@ void vassert_(int c, int id); void vassume_(int c); void vreach_(int id);
 static void ir_memcpy(u8* d, const u8* s, u64 n) { for (u64 i = 0; i < n; i++) d[i] = s[i]; }
 static void ir_memmove(u8* d, const u8* s, u64 n) { if (d <= s) { for (u64 i = 0; i < n; i++) d[i] = s[i]; } else { for (u64 i = n; i > 0; i--) d[i - 1] = s[i - 1]; } }
 static void ir_memset(u8* d, u8 c, u64 n) { for (u64 i = 0; i < n; i++) d[i] = c; }
+#ifdef __CPROVER__
+#define IR_NEW_TYPED(T) ({ T* ir_p__ = (T*)malloc(sizeof(T)); __CPROVER_assume(ir_p__ != 0); ir_p__; })
+#else
+#define IR_NEW_TYPED(T) ((T*)malloc(sizeof(T)))
+#endif
 #define PUN(DT, ST, e) ({ ST pun_s__ = (e); DT pun_d__; memcpy(&pun_d__, &pun_s__, sizeof(DT)); pun_d__; })
 '''
 
